@@ -73,6 +73,7 @@ struct Sess
   std::atomic<bool> dataAfterClose{false};
   std::string closeMsg; std::mutex closeMx;
   Peer peer;
+  uint16_t peerLocalPort = 0, peerRemotePort = 0; // the peer socket's own / remote port (= iora's remote / local port)
   std::vector<std::thread> senderThreads;
 };
 
@@ -83,7 +84,7 @@ struct Cell
   int tlsMax = 13, threads = 1, sessions = 1;
   uint64_t bytes = 200000, rbytes = 50000;
   uint32_t permille = 300, iocap = 0, dist = 0, hsSends = 2;
-  int sndbuf = 4096, rcvbuf = 4096, peerRcvbuf = 1, iochunk = 65536, pauses = 100;
+  int sndbuf = 4096, rcvbuf = 4096, peerRcvbuf = 8192, iochunk = 65536, pauses = 100;
   size_t mwq = 1024;
   uint64_t window = 1u << 20; // sender throttle: accepted-but-not-yet-received bytes
   std::string fin = "half"; // half | app | stop
@@ -204,8 +205,8 @@ struct Harness
       uint32_t len = pickLen(r, C, multi);
       if (!throttle)
       {
-        while (s->acceptedBytes.load() - std::min<uint64_t>(s->acceptedBytes.load(), s->peer.rxBytes.load()) > (4u << 20) && !s->stopSenders.load() && !abortAll.load() && s->closeCount.load() == 0)
-          vf::sleepMs(0.2);
+        // overflow cells: never block (the close only happens on a send that finds the queue over its limit), just slow down
+        if (s->acceptedBytes.load() - std::min<uint64_t>(s->acceptedBytes.load(), s->peer.rxBytes.load()) > (2u << 20)) { len = std::min<uint32_t>(len, 64); vf::sleepMs(2); }
       }
       else
       {
@@ -440,6 +441,26 @@ template <class F> bool waitUntil(F f, uint64_t ms)
   return true;
 }
 
+// the engine's socket for a session, found by its port pair; kernel queue sizes tell whether undelivered
+// bytes sit in the kernel (not the engine's doing) or in the engine's own write queue
+struct SockQ { int fd = -1; int outq = -1, inq = -1; bool writable = false, readable = false; };
+SockQ engineSocketQueues(uint16_t localPort, uint16_t remotePort)
+{
+  SockQ q;
+  for (int fd = 3; fd < 4096; fd++)
+  {
+    sockaddr_in a{}, b{}; socklen_t la = sizeof a, lb = sizeof b;
+    if (getsockname(fd, (sockaddr *)&a, &la) != 0 || a.sin_family != AF_INET || ntohs(a.sin_port) != localPort) continue;
+    if (getpeername(fd, (sockaddr *)&b, &lb) != 0 || ntohs(b.sin_port) != remotePort) continue;
+    q.fd = fd;
+    ioctl(fd, TIOCOUTQ, &q.outq); ioctl(fd, FIONREAD, &q.inq);
+    pollfd pf{fd, POLLOUT | POLLIN, 0};
+    if (poll(&pf, 1, 0) > 0) { q.writable = pf.revents & POLLOUT; q.readable = pf.revents & POLLIN; }
+    break;
+  }
+  return q;
+}
+
 // ------------------------------------------------------------------------------------ stream cell
 int runStream(const Cell &C0)
 {
@@ -509,6 +530,8 @@ int runStream(const Cell &C0)
       if (fd < 0) { O.inconclusive("peer never saw the connection from iora"); O.flush(); _exit(2); }
     }
     s.peer.fd = fd;
+    { sockaddr_in a{}; socklen_t l = sizeof a; if (getsockname(fd, (sockaddr *)&a, &l) == 0) s.peerLocalPort = ntohs(a.sin_port);
+      l = sizeof a; if (getpeername(fd, (sockaddr *)&a, &l) == 0) s.peerRemotePort = ntohs(a.sin_port); }
   }
   // peers and senders
   for (auto &sp2 : H.sess)
@@ -554,6 +577,7 @@ int runStream(const Cell &C0)
     Snap cur = snap();
     if (cur != prev) { prev = cur; lastChange = now; }
     if (cur.a > cur.b) peakBacklog = std::max(peakBacklog, cur.a - cur.b);
+    { static uint64_t lastT = 0; if (getenv("VF_C01_TRACE") && now - lastT > 1000000000ull) { lastT = now; fprintf(stderr, "[trace] t=%6.0f ms accepted=%llu peer_rx=%llu on_data=%llu peer_wrote=%llu\n", double(now - tStart) / 1e6, (unsigned long long)cur.a, (unsigned long long)cur.b, (unsigned long long)cur.c, (unsigned long long)cur.d); } }
     if (faultNone)
     {
       if (mainDone()) break;
@@ -589,6 +613,9 @@ int runStream(const Cell &C0)
           << ",\"engine_bytes_out\":" << st2.bytesOut << ",\"engine_bytes_in\":" << st2.bytesIn << ",\"session_closed\":" << closed << ",\"peer_idle_in_read\":" << peerIdle
           << ",\"peer_socket_pending\":" << s->peer.pendingAtIdle.load() << ",\"peer_done\":" << s->peer.done.load() << ",\"handshake_done\":" << s->peer.handshakeDone.load()
           << ",\"senders_running\":" << s->sendersRunning.load() << ",\"no_progress_ms\":" << (vf::nowNs() - lastChange) / 1000000ull;
+        SockQ q = engineSocketQueues(s->peerRemotePort, s->peerLocalPort);
+        d << ",\"engine_socket_found\":" << (q.fd >= 0) << ",\"engine_socket_unsent_bytes\":" << q.outq << ",\"engine_socket_unread_bytes\":" << q.inq
+          << ",\"engine_socket_writable\":" << q.writable << ",\"engine_socket_readable\":" << q.readable;
         if (closed)
         {
           if (!s->peer.done.load() && !faultNone) { key = std::string("C01:stall:peer-never-saw-end:") + C.tr(); what = "session reported closed, but the peer never saw the end of the stream"; break; }
@@ -597,6 +624,10 @@ int runStream(const Cell &C0)
         if (s->peer.aborted.load() || (s->peer.done.load() && s->peer.eof.load()))
         { key = std::string("C01:stall:close-not-reported:") + C.tr(); what = "the peer ended the connection and the engine went quiet, but the session was never reported closed"; break; }
         if (C.tls && !s->peer.handshakeDone.load() && !s->peer.done.load()) { key = "C01:stall:handshake-no-progress:tls"; what = "TLS handshake stopped making progress with sends queued"; break; }
+        if (acc > got && peerIdle && s->peer.pendingAtIdle.load() == 0 && q.fd >= 0 && q.outq > 0)
+        { key = std::string("C01:stall:kernel-not-delivering:") + C.tr(); what = "no progress, but the undelivered bytes sit in the kernel send queue of the engine's socket (not an engine stall)"; break; }
+        if (wrote > rx && q.fd >= 0 && q.inq == 0 && !(acc > got))
+        { key = std::string("C01:stall:kernel-not-delivering:") + C.tr(); what = "no progress, but the engine's socket has nothing to read: the peer's bytes are still in the kernel (not an engine stall)"; break; }
         if (acc > got && peerIdle && s->peer.pendingAtIdle.load() == 0)
         { key = std::string("C01:stall:tx-no-progress:") + C.tr(); what = "accepted bytes outstanding, peer blocked in read on an empty socket, engine bytesOut not advancing, session not closed (lost write re-arm)"; break; }
         if (wrote > rx) { key = std::string("C01:stall:rx-no-progress:") + C.tr(); what = "peer wrote bytes that were never handed to onData, engine bytesIn not advancing, session not closed (lost read re-arm)"; break; }
@@ -610,6 +641,9 @@ int runStream(const Cell &C0)
     if (now - tStart > C.watchdogMs * 1000000ull) { watchdog = true; outcome = "watchdog"; break; }
   }
 
+  static const bool trace = getenv("VF_C01_TRACE") != nullptr;
+  auto T = [&](const char *w) { if (trace) fprintf(stderr, "[trace] %-28s %8.1f ms\n", w, double(vf::nowNs() - tStart) / 1e6); };
+  T(outcome.c_str());
   // ---- final phase
   bool halfFinal = false;
   if (outcome == "complete")
@@ -629,17 +663,21 @@ int runStream(const Cell &C0)
     }
     else for (auto &s : H.sess) s->peer.cmd = 2;
   }
+  T("final phase done");
   H.abortAll = true;
   for (auto &s : H.sess) s->stopSenders = true;
   for (auto &s : H.sess) for (auto &t : s->senderThreads) t.join();
   std::vector<bool> closedBeforeStop;
   for (auto &s : H.sess) closedBeforeStop.push_back(s->closeCount.load() > 0);
+  T("senders joined");
   H.tr->stop();
+  T("transport stopped");
   for (auto &s : H.sess)
   {
     if (!waitUntil([&] { return s->peer.done.load(); }, 15000)) s->peer.cmd = 3;
     s->peer.th.join();
   }
+  T("peers joined");
   if (lfd >= 0) ::close(lfd);
   sp.mode = 0;
 
@@ -962,7 +1000,7 @@ int main(int argc, char **argv)
   C.threads = int(a.u("threads", 1)); C.sessions = int(a.u("sessions", 1));
   C.bytes = a.u("bytes", 200000); C.rbytes = a.u("rbytes", 50000);
   C.permille = uint32_t(a.u("permille", 300)); C.iocap = uint32_t(a.u("iocap", 0)); C.dist = uint32_t(a.u("dist", 0)); C.hsSends = uint32_t(a.u("hssends", 2));
-  C.sndbuf = int(a.u("sndbuf", 4096)); C.rcvbuf = int(a.u("rcvbuf", 4096)); C.peerRcvbuf = int(a.u("peerrcvbuf", 1)); C.iochunk = int(a.u("iochunk", 65536));
+  C.sndbuf = int(a.u("sndbuf", 4096)); C.rcvbuf = int(a.u("rcvbuf", 4096)); C.peerRcvbuf = int(a.u("peerrcvbuf", 8192)); C.iochunk = int(a.u("iochunk", 65536));
   C.pauses = int(a.u("pauses", 100)); C.mwq = size_t(a.u("mwq", 1024)); C.window = a.u("window", 1u << 20);
   C.fin = a.s("fin", "half"); C.fault = a.s("fault", "none");
   C.seed = a.u("seed", 1); C.cell = a.u("cell", 0); C.stallMs = a.u("stallms", 8000); C.watchdogMs = a.u("watchdogms", 240000);
